@@ -25,7 +25,15 @@ def run(ctx: Ctx):
     scaling(ctx)
     selection(ctx)
     diffs(ctx)
+    # which display positions ARE differences: display positions may not be paired position-wise with the payload-ordered
+    # list of subtotals (C05 index-space typing, restricted to the helpers that locate the differences)
+    from . import c05
+
+    c05.index_space_zip(ctx, only=("_diff_element_idxs", "diff_row_idxs", "diff_column_idxs"))
     fraction(ctx)
+    from .common import no_shared_writes
+
+    no_shared_writes(ctx, "no-shared-write")
 
 
 def scaling(ctx: Ctx):
@@ -105,7 +113,17 @@ def diffs(ctx: Ctx):
                     n_nan_stores += 1
                     sl = n.targets[0].slice
                     parts = list(sl.elts) if isinstance(sl, ast.Tuple) else [sl]
-                    texts = [[u(v) for v in res(p)] for p in parts]
+                    def unwrap(x):
+                            # list(t) / np.array(t) / np.asarray(t) of the tuple of indexes is the same index set
+                            while isinstance(x, ast.Call) and u(x.func) in ("list", "np.array", "np.asarray") and len(x.args) == 1:
+                                x = x.args[0]
+                            return x
+
+                    texts = [[u(unwrap(v)) for v in res(p)] for p in parts]
+                    # a bare TUPLE as the whole subscript of a 1-D array is read by numpy as one index per dimension
+                    if not isinstance(sl, ast.Tuple) and u(sl) in ("self.diff_row_idxs", "self.diff_column_idxs"):
+                        wrong.append(f"{u(n.targets[0])}: a tuple of indexes used as the whole subscript is a multi-dimensional index (IndexError for two or more differences)")
+                        continue
                     for axis, part_texts in enumerate(texts):
                         for which, attr in (("rows", "self.diff_row_idxs"), ("columns", "self.diff_column_idxs")):
                             if attr in part_texts:
